@@ -344,21 +344,25 @@ def augAssign (t : Target) (op : Nat) (e : Expr) (σ : Store) (w : W) : R W Stor
       bind (eval cfg P l σ w) fun a w => bind (eval cfg P e a.2 w) fun b w =>
       bind (applyAug cfg P op a.1 b.1 w) fun r w => assign cfg P t r b.2 w
 
-/-- `ast_delete` for one target -/
-def delete1 (t : Target) (σ : Store) (w : W) : R W Store :=
-  match t with
-  | .name x =>
+mutual
+/-- `ast_delete` for one target; parenthesised / bracketed target lists are deleted element by element -/
+def delete1 : Target → Store → W → R W Store
+  | .name x, σ, w =>
     match σ.get x with
     | some _ => (.ok (σ.del x), w)
     | none => (.error .nameError, w)
-  | .sub v i =>
+  | .sub v i, σ, w =>
     bind (eval cfg P v σ w) fun a w => bind (eval cfg P i a.2 w) fun b w =>
     bind (P.delitem a.1 b.1 w) fun _ w => (.ok b.2, w)
-  | _ => (.error .notImplemented, w)
-
+  | .attr _ _, _, w => (.error .notImplemented, w)        -- attribute targets delete state variables (C16), not modelled
+  | .tup _ before star after, σ, w =>
+    match star with
+    | some _ => (.error .notImplemented, w)                -- rejected by CPython's compiler
+    | none => bind (deleteAll before σ w) fun σ1 w => deleteAll after σ1 w
 def deleteAll : List Target → Store → W → R W Store
   | [], σ, w => (.ok σ, w)
-  | t :: ts, σ, w => bind (delete1 cfg P t σ w) fun σ1 w => deleteAll ts σ1 w
+  | t :: ts, σ, w => bind (delete1 t σ w) fun σ1 w => deleteAll ts σ1 w
+end
 
 def assignAll (v : Val) : List Target → Store → W → R W Store
   | [], σ, w => (.ok σ, w)
@@ -380,8 +384,8 @@ end
 
 /-- what the code does today (certified by the correspondence check, flipped by `fix:` commits) -/
 def Current.cfg : Cfg :=
-  { dictKeyFirst := true, callArgsFirst := true, compareOnce := true, augTargetOnce := false,
-    augInPlace := false, fstrConversion := true, dupKwCheck := true, listTarget := true, uaddApplies := true }
+  { dictKeyFirst := true, callArgsFirst := true, compareOnce := true, augTargetOnce := true,
+    augInPlace := true, fstrConversion := true, dupKwCheck := true, listTarget := true, uaddApplies := true }
 
 /-- the handlers as they were before the `fix:` commits (every flag off) – kept for the regression witnesses -/
 def Cfg.preFix : Cfg := ⟨false, false, false, false, false, false, false, false, false⟩
